@@ -342,19 +342,20 @@ theorem slice_le {dst src : Replica} (hzd : NoZombie dst) (hnd : IdsNodup dst)
       rw [this]; rfl
 
 section room
-variable {d : Defects} (hI : d.ingestIgnoresTombstones = false) (hR : d.syncDeletionRoomScoped = false)
-  (hK : d.deletionBatchKeyedById = false) (hE : d.edgesOnlyForFetchedRows = false)
+variable {d : Defects} {f : Nat → Nat} (hI : d.ingestIgnoresTombstones = false)
 
-include hI hR hK hE in
+include hI in
 /-- **refinement, one pull, logs recomputed.** When both logs are the logs of the stored content (C09: after a
     recomputation with nothing pending), the rows and node deletion records of the puller after `synchronise_room`
-    of the intended behaviour are the join of what it held with what the source holds for that room. -/
+    are the join of what it held with what the source holds for that room. -/
 theorem pull_refines_join (hS : d.summaryFirstEntityOnly = false) {rights : Rights} (hA : AllRights rights)
-    {dst src : Replica} (hzd : NoZombie dst) (hzs : NoZombie src) (hnd : IdsNodup dst) (hns : IdsNodup src)
+    {dst src : Replica} (hR : d.syncDeletionRoomScoped = false ∨ (RoomFn f dst ∧ RoomFn f src))
+    (hK : d.deletionBatchKeyedById = false ∨ DayRecordsDistinct src)
+    (hzd : NoZombie dst) (hzs : NoZombie src) (hnd : IdsNodup dst) (hns : IdsNodup src)
     (hpk : PkFun (fun x => x ∈ dst.ntombs ∨ x ∈ src.ntombs))
     (hld : IsLogOf dst.sigs dst.log) (hls : IsLogOf src.sigs src.log) (hsig : SigsDetermine dst src) (room : Nat) :
     abs (pull d rights dst src room).dst = join (abs dst) (abs (inRoom src room)) := by
-  rw [pull_refines_days hI hR hK hE hS hA hzd hzs hns hpk room, joinDays_eq _ _ _ (abs_wf hzd),
+  rw [pull_refines_days hI hS hA hR hK hzd hzs hns hpk room, joinDays_eq _ _ _ (abs_wf hzd),
     ← joinSlices_room hzs hns hls room]
   unfold diffDays
   generalize hp : (fun (x : FlatRow) =>
